@@ -15,7 +15,7 @@ TECHNIQUE = (
 )
 RULE = (
     "documents = all concatenations of <=k fragments of A0 (plain) / decorated fragments (markup); all "
-    "fragment-edit and character-edit mutations of 8 templates within the edit bound. distinct = distinct "
+    "fragment-edit and character-edit mutations of 8 templates within the edit bound; complete slot product of generated legal mark-up (C19's documents), each cleaned with 3 step lists forwards and backwards in one execution. distinct = distinct "
     "(tokenizer, mode, text); non-trivial = extraction returned >=1 citation (every returned citation is checked)."
 )
 ASSUMPTIONS = [
@@ -115,6 +115,9 @@ def shards(tier, seed):
     out += dd.seq_shards(
         "markup-inline-AC", "MK", len(MK), 2, "AC", extra={"markup": True, "steps": ["html", "inline_whitespace"]}
     )
+    # generated legal mark-up (the C19 slot product: case name / citation / later mentions in style tags), each document
+    # cleaned with the three step lists in both orders within one execution
+    out += dd.residue_shards("markup-docs-AC", "mkdocs", "AC", 32)
     for ti in range(len(TEMPLATES)):
         for tok in ("AC", "HS"):
             out += dd.residue_shards("fragedit-" + tok, "fe", tok, 16 if d["FE"] > 1 else 2, {"t": ti, "edits": d["FE"]})
@@ -130,6 +133,15 @@ def cases_of(sh):
         return pumped_cases(sh)
     if sh["kind"] == "seq":
         return dd.seq_cases(sh, ALPHABETS)
+    if sh["kind"] == "mkdocs":
+        from mc.props import c19
+
+        fwd = c19.STEPS
+        return (
+            {"part": sh["part"], "tok": sh["tok"], "text": m, "markup": True, "steps": fwd[0], "steps_seq": seq}
+            for m in dd.sliced(c19.documents(), sh["r"], sh["n"])
+            for seq in (fwd + fwd[::-1],)
+        )
     if sh["kind"] == "fe":
         gen = ("".join(seq) for seq, _ in docspace.edit_mutations(TEMPLATES[sh["t"]], A0, sh["edits"]))
     else:
